@@ -134,6 +134,17 @@ def run(case):
             for x, expect in ((g, np.sqrt(f.data)), (h, f.data + 1), (a2, f.data * 2)):
                 ok = ok and isinstance(x, SlidingWindowFeature) and x.sliding_window is f.sliding_window \
                     and x.labels == f.labels and bool((x.data == expect).all())
+            # two iterations alive at once (a feature and a ufunc result, which share the window object; the window
+            # itself walked meanwhile): each pairs row i with position i. (A feature is its own iterator, so nested
+            # loops over the SAME feature object restart each other - existing behaviour the property does not cover.)
+            both = list(zip(f, g))
+            ok = ok and len(both) == case["n"] and all(s1 == s2 == f.sliding_window[i] for i, ((s1, _r1), (s2, _r2)) in enumerate(both))
+            seen = []
+            wi = iter(f.sliding_window)
+            for i, (s1, _r1) in enumerate(f):
+                next(wi, None)
+                seen.append(s1 == f.sliding_window[i])
+            ok = ok and len(seen) == case["n"] and all(seen)
             al = f.align(f)
             ok = ok and isinstance(al, SlidingWindowFeature) and al.sliding_window is f.sliding_window \
                 and bool(np.array_equal(al.data, f.data)) and al.labels == f.labels
